@@ -11,11 +11,12 @@ counterexamples in the last section run the current stub.
 Contents
 1. `Inv`, `TxShape`: invariant and shape of everything transmitted (`step_preserves_inv`,
    `step_tx_shape`, `run_tx_shape`, `trace_tx_shape`, `reachable_inv`).
-2. `solicited_correlated_idle`, `solWait_confirm_continues`, `solContinuation_stores`, `continuation_correlated`,
+2. `solicited_correlated_idle`, `idle_repeat_echo_verbatim` (D14 repaired), `solWait_confirm_continues`, `solContinuation_stores`, `continuation_correlated`,
    `nonread_response_correlated`, `rejection_flagged_header`.
 3. `unsolicited_numbering`, `unsolicited_retry_verbatim`.
 4. `silent_functions_nonread`, `silent_functions_partial`, `silent_confirm_idle`.
-5. `rejection_flagged_*`, `parseObjects_error`, `write_accumulates`,
+5. `rejection_flagged_*`, `rejection_header_broadcast_silent`, `popRequest_foreign` (D6 repaired),
+   `parseObjects_error`, `write_accumulates`,
    `write_rejection_flagged` (full; D7 repaired), `rejection_flagged_write`.
 6. `operate_echo_overflow_panics` (D1), `select_echo_overflow_clean` (D13) and evaluated counterexamples.
 -/
@@ -129,10 +130,13 @@ theorem TxOk.shape {cfg : OCfg} {dst : Nat} {b : List Nat} (hs : 4 ≤ cfg.sol) 
 
 /-- what is stored in `lastReq`: a well-formed solicited response; for a non-READ request it is the
     single fragment answering it (same sequence number, FIR, FIN).  For a READ it is the fragment of
-    the response series sent last (D5 repaired: a continuation fragment replaces the first one) -/
+    the response series sent last (D5 repaired: a continuation fragment replaces the first one).
+    The series recorded with the request (D14 repaired: the echo of a repeated non-READ request re-opens
+    the confirm wait recorded with it) is unfinished only for a READ -/
 def StoredOk (cfg : OCfg) (lr : LastReq) : Prop :=
-  lr.seq < 16 ∧ ∀ r, lr.response = some r →
-    SolResp cfg r ∧ (lr.frag.getD 1 0 ≠ 1 → r.ctrl.seq = lr.seq ∧ r.ctrl.fir = true ∧ r.ctrl.fin = true)
+  lr.seq < 16 ∧ (∀ r, lr.response = some r →
+    SolResp cfg r ∧ (lr.frag.getD 1 0 ≠ 1 → r.ctrl.seq = lr.seq ∧ r.ctrl.fir = true ∧ r.ctrl.fin = true)) ∧
+  (∀ sr, lr.series = some sr → sr.fin = false → lr.frag.getD 1 0 = 1)
 
 /-- the session invariant (buffer geometry, stored responses well-formed, sequence numbers in range;
     a solicited series that is not finished belongs to a READ) -/
@@ -745,20 +749,31 @@ theorem Good.popRequest {cfg : OCfg} {s : OState} {out : List OOut} (h : Good cf
     Good cfg ((popRequest s).1, out) := by
   rcases popRequest_state s with e | e <;> rw [e] <;> exact h
 
-theorem popRequest_error {s : OState} {src : Nat} {seq : Nat} (h : (popRequest s).2 = .error src (some seq)) :
-    seq < 16 ∧ ∃ f, s.pending = some f ∧ src = f.src ∧ parseRequest f.data = .headerError seq := by
+theorem popRequest_error {s : OState} {src : Nat} {bc : Bool} {seq : Nat}
+    (h : (popRequest s).2 = .error src bc (some seq)) :
+    seq < 16 ∧ ∃ f, s.pending = some f ∧ src = f.src ∧ parseRequest f.data = .headerError seq ∧
+      bc = f.broadcast.isSome ∧ (s.cfg.anymaster = true ∨ f.src = s.cfg.master) := by
   unfold popRequest at h
   split at h
   · simp at h
   · rename_i f hf
     split at h
     · simp at h
-    · rename_i sq hp
-      simp only [Popped.error.injEq, Option.some.injEq] at h
-      obtain ⟨rfl, rfl⟩ := h
-      obtain ⟨c, rest, _, rfl⟩ := parseRequest_headerError_seq hp
-      exact ⟨ofNat_seq_lt c, f, hf, rfl, hp⟩
-    · split at h <;> simp at h
+    · rename_i hm
+      have hacc : s.cfg.anymaster = true ∨ f.src = s.cfg.master := by
+        by_cases ha : s.cfg.anymaster = true
+        · exact Or.inl ha
+        · by_cases hne : f.src = s.cfg.master
+          · exact Or.inr hne
+          · exact absurd ⟨by simpa using ha, hne⟩ hm
+      split at h
+      · simp at h
+      · rename_i sq hp
+        simp only [Popped.error.injEq, Option.some.injEq] at h
+        obtain ⟨rfl, rfl, rfl⟩ := h
+        obtain ⟨c, rest, _, rfl⟩ := parseRequest_headerError_seq hp
+        exact ⟨ofNat_seq_lt c, f, hf, rfl, hp, rfl, hacc⟩
+      · simp at h
 
 theorem popRequest_request {s : OState} {f : Frag} {ctrl : AppCtrl} {func : Nat} {objects : Except Nat (List ObjHdr)}
     {raw : List Nat} (h : (popRequest s).2 = .request f ctrl func objects raw) :
@@ -771,11 +786,11 @@ theorem popRequest_request {s : OState} {f : Frag} {ctrl : AppCtrl} {func : Nat}
     rw [hf]
     split at h
     · simp at h
-    · simp at h
-    · rename_i c fn ob rw hp
+    · rename_i hm
       split at h
       · simp at h
-      · rename_i hm
+      · simp at h
+      · rename_i c fn ob rw hp
         simp only [Popped.request.injEq] at h
         obtain ⟨rfl, rfl, rfl, rfl, rfl⟩ := h
         rw [hp]
@@ -1236,9 +1251,11 @@ theorem Good.clearWrittenEvents {cfg : OCfg} {a : Acc} (h : Good cfg a) : Good c
   · intro b id hb; exact hb.emitCb _
   · exact Good.emitCb (a := a) h _
 
-theorem Good.writeErrorResponse {cfg : OCfg} {a a' : Acc} (h : Good cfg a) {dst : Nat} {seq : Option Nat}
-    (hseq : ∀ n, seq = some n → n < 16) (hw : writeErrorResponse a dst seq = some a') : Good cfg a' := by
+theorem Good.writeErrorResponse {cfg : OCfg} {a a' : Acc} (h : Good cfg a) {dst : Nat} {bc : Bool} {seq : Option Nat}
+    (hseq : ∀ n, seq = some n → n < 16) (hw : writeErrorResponse a dst bc seq = some a') : Good cfg a' := by
   unfold Dnp3.writeErrorResponse at hw
+  split at hw
+  · simp only [Option.some.injEq] at hw; subst hw; exact h
   split at hw
   · simp only [Option.some.injEq] at hw; subst hw; exact h
   · rename_i n
@@ -1250,24 +1267,27 @@ theorem Good.writeErrorResponse {cfg : OCfg} {a a' : Acc} (h : Good cfg a) {dst 
 
 /-- the classification / execution part of `handle_one_request_from_idle` (before the response is sent) -/
 def idleResult (a : Acc) (f : Frag) (ctrl : AppCtrl) (func : Nat)
-    (objects : Except Nat (List ObjHdr)) (raw : List Nat) : Option (Acc × Option LastReq) :=
+    (objects : Except Nat (List ObjHdr)) (raw : List Nat) : Option (Acc × Option (LastReq × Bool)) :=
   let seq := ctrl.seq
   match classify a.1 f ctrl func objects with
-  | .malformed e => some (a, some ⟨seq, f.data, some (emptySolicited seq e), none⟩)
+  | .malformed e => some (a, some (⟨seq, f.data, some (emptySolicited seq e), none⟩, false))
   | .newRead hs | .repeatRead _ hs =>
     let (db, iin2) := dbSelectAll a.1.db hs
     let (s, r, series) := formatReadResponse { a.1 with db := db } true seq iin2
-    some ((s, a.2), some ⟨seq, f.data, some r, series⟩)
+    some ((s, a.2), some (⟨seq, f.data, some r, series⟩, false))
   | .newNonRead hs =>
     match handleNonRead a func seq f.id hs raw with
     | none => none
-    | some (a, r) => some (a, some ⟨seq, f.data, r, none⟩)
+    | some (a, r) => some (a, some (⟨seq, f.data, r, none⟩, false))
   | .repeatNonRead last =>
     let s := a.1
     let s := match s.select with
-      | some sel => { s with select := some { sel with frameId := f.id } }
+      | some sel =>
+        if func = 3 ∧ sel.seq = seq ∧ (sel.frameId + 1) % 4294967296 = f.id ∧ sel.objects = raw then
+          { s with select := some { sel with frameId := f.id } }
+        else s
       | none => s
-    some ((s, a.2), some ⟨seq, f.data, last, none⟩)
+    some ((s, a.2), some (⟨seq, f.data, last, s.lastReq.bind (·.series)⟩, true))
   | .broadcast mode =>
     match processBroadcast a f mode ctrl func objects raw with
     | none => none
@@ -1280,10 +1300,13 @@ theorem handleRequestFromIdle_eq (a : Acc) (f : Frag) (ctrl : AppCtrl) (func : N
       match idleResult a f ctrl func objects raw with
       | none => none
       | some (a, none) => some (a, none)
-      | some (a, some lr) =>
+      | some (a, some (lr, echo)) =>
         match lr.response with
         | none => some (({ a.1 with lastReq := some lr }, a.2), lr.series)
         | some r =>
+          if echo then
+            some (({ (repeatSolicited a f.src r).1 with lastReq := some lr }, (repeatSolicited a f.src r).2), lr.series)
+          else
           match writeSolicited a f.src r with
           | none => none
           | some (a, r) =>
@@ -1297,17 +1320,19 @@ def PreStored (cfg : OCfg) (f : Frag) (ctrl : AppCtrl) (func : Nat) (lr : LastRe
 
 theorem Good.idleResult {cfg : OCfg} (hdb : DbContract) {a a' : Acc} (h : Good cfg a) {f : Frag} {ctrl : AppCtrl}
     {func : Nat} {objects : Except Nat (List ObjHdr)} {raw : List Nat} (hseq : ctrl.seq < 16)
-    (hfn : f.data.getD 1 0 = func) {olr : Option LastReq} (hi : idleResult a f ctrl func objects raw = some (a', olr)) :
-    Good cfg a' ∧ ∀ lr, olr = some lr → PreStored cfg f ctrl func lr := by
+    (hfn : f.data.getD 1 0 = func) {olr : Option (LastReq × Bool)}
+    (hi : idleResult a f ctrl func objects raw = some (a', olr)) :
+    Good cfg a' ∧ ∀ lr e, olr = some (lr, e) → PreStored cfg f ctrl func lr := by
   unfold Dnp3.Proofs.C12.idleResult at hi
   dsimp only at hi
-  have noLr : ∀ lr, (none : Option LastReq) = some lr → PreStored cfg f ctrl func lr := fun lr hl => by simp at hl
+  have noLr : ∀ lr e, (none : Option (LastReq × Bool)) = some (lr, e) → PreStored cfg f ctrl func lr :=
+    fun lr e hl => by simp at hl
   split at hi
   · -- malformed
     simp only [Option.some.injEq, Prod.mk.injEq] at hi
     obtain ⟨rfl, rfl⟩ := hi
-    refine ⟨h, fun lr hl => ?_⟩
-    simp only [Option.some.injEq] at hl; subst hl
+    refine ⟨h, fun lr e hl => ?_⟩
+    simp only [Option.some.injEq, Prod.mk.injEq] at hl; obtain ⟨rfl, rfl⟩ := hl
     refine ⟨rfl, rfl, fun r hr => ?_⟩
     simp only [Option.some.injEq] at hr; subst hr
     exact ⟨(emptySolicited_ok hseq _).1, rfl, rfl, fun _ => rfl⟩
@@ -1317,8 +1342,8 @@ theorem Good.idleResult {cfg : OCfg} (hdb : DbContract) {a a' : Acc} (h : Good c
     obtain ⟨rfl, rfl⟩ := hi
     have hf := Good.formatReadResponse hdb (s := { a.1 with db := (dbSelectAll a.1.db hs).1 }) (out := a.2) h true hseq
       (dbSelectAll a.1.db hs).2
-    refine ⟨hf.1, fun lr hl => ?_⟩
-    simp only [Option.some.injEq] at hl; subst hl
+    refine ⟨hf.1, fun lr e hl => ?_⟩
+    simp only [Option.some.injEq, Prod.mk.injEq] at hl; obtain ⟨rfl, rfl⟩ := hl
     refine ⟨rfl, rfl, fun r hr => ?_⟩
     simp only [Option.some.injEq] at hr; subst hr
     exact ⟨hf.2.1, hf.2.2.1, hf.2.2.2.1, fun hne => absurd (classify_func.1 _ hcl) hne⟩
@@ -1328,8 +1353,8 @@ theorem Good.idleResult {cfg : OCfg} (hdb : DbContract) {a a' : Acc} (h : Good c
     obtain ⟨rfl, rfl⟩ := hi
     have hf := Good.formatReadResponse hdb (s := { a.1 with db := (dbSelectAll a.1.db hs).1 }) (out := a.2) h true hseq
       (dbSelectAll a.1.db hs).2
-    refine ⟨hf.1, fun lr hl => ?_⟩
-    simp only [Option.some.injEq] at hl; subst hl
+    refine ⟨hf.1, fun lr e hl => ?_⟩
+    simp only [Option.some.injEq, Prod.mk.injEq] at hl; obtain ⟨rfl, rfl⟩ := hl
     refine ⟨rfl, rfl, fun r hr => ?_⟩
     simp only [Option.some.injEq] at hr; subst hr
     exact ⟨hf.2.1, hf.2.2.1, hf.2.2.2.1, fun hne => absurd (classify_func.2.1 _ _ hcl) hne⟩
@@ -1340,8 +1365,8 @@ theorem Good.idleResult {cfg : OCfg} (hdb : DbContract) {a a' : Acc} (h : Good c
       simp only [Option.some.injEq, Prod.mk.injEq] at hi
       obtain ⟨rfl, rfl⟩ := hi
       have hg := h.handleNonRead hseq hn
-      refine ⟨hg.1, fun lr hl => ?_⟩
-      simp only [Option.some.injEq] at hl; subst hl
+      refine ⟨hg.1, fun lr e hl => ?_⟩
+      simp only [Option.some.injEq, Prod.mk.injEq] at hl; obtain ⟨rfl, rfl⟩ := hl
       refine ⟨rfl, rfl, fun r hr => ?_⟩
       dsimp only at hr
       have := hg.2 r hr
@@ -1352,12 +1377,12 @@ theorem Good.idleResult {cfg : OCfg} (hdb : DbContract) {a a' : Acc} (h : Good c
     obtain ⟨rfl, rfl⟩ := hi
     obtain ⟨lr0, hl0, hs0, hf0, rfl⟩ := classify_repeat (Or.inr hcl)
     have hst := h.1.2.2.2.2.2.2.1 lr0 hl0
-    refine ⟨?_, fun lr hl => ?_⟩
-    · split <;> exact h
-    · simp only [Option.some.injEq] at hl; subst hl
+    refine ⟨?_, fun lr e hl => ?_⟩
+    · splits <;> exact h
+    · simp only [Option.some.injEq, Prod.mk.injEq] at hl; obtain ⟨rfl, rfl⟩ := hl
       refine ⟨rfl, rfl, fun r hr => ?_⟩
       dsimp only at hr
-      obtain ⟨h1, h234⟩ := hst.2 r hr
+      obtain ⟨h1, h234⟩ := hst.2.1 r hr
       obtain ⟨h2, h3, h4⟩ := h234 (by rw [hf0, hfn]; exact classify_func.2.2.2 _ hcl)
       exact ⟨h1, h2.trans hs0, h3, fun _ => h4⟩
   · -- broadcast
@@ -1375,41 +1400,55 @@ theorem Good.idleResult {cfg : OCfg} (hdb : DbContract) {a a' : Acc} (h : Good c
     exact ⟨h, noLr⟩
 
 theorem PreStored.stored {cfg : OCfg} {f : Frag} {ctrl : AppCtrl} {func : Nat} {lr : LastReq}
-    (hseq : ctrl.seq < 16) (hfn : f.data.getD 1 0 = func) (h : PreStored cfg f ctrl func lr) : StoredOk cfg lr := by
+    (hseq : ctrl.seq < 16) (hfn : f.data.getD 1 0 = func) (h : PreStored cfg f ctrl func lr)
+    (hser : ∀ sr, lr.series = some sr → sr.fin = false → func = 1) : StoredOk cfg lr := by
   obtain ⟨h1, h2, h3⟩ := h
-  refine ⟨h1 ▸ hseq, fun r hr => ?_⟩
+  refine ⟨h1 ▸ hseq, fun r hr => ?_, fun sr hs hf => by rw [h2, hfn]; exact hser sr hs hf⟩
   obtain ⟨a1, a2, a3, a4⟩ := h3 r hr
   exact ⟨a1, fun hne => ⟨a2.trans h1.symm, a3, a4 (by rw [h2, hfn] at hne; exact hne)⟩⟩
 
-/-- the record `idleResult` hands to the writer is that of the fragment; only a READ starts a series -/
+/-- the record `idleResult` hands to the writer is that of the fragment; only a READ starts a series, and the
+    series kept with an echoed record (`hst`: the invariant of the stored request) is unfinished only for a READ -/
 theorem idleResult_lr {a a1 : Acc} {f : Frag} {ctrl : AppCtrl} {func : Nat} {objects : Except Nat (List ObjHdr)}
-    {raw : List Nat} {lr : LastReq} (hi : idleResult a f ctrl func objects raw = some (a1, some lr)) :
-    lr.frag = f.data ∧ (∀ sr, lr.series = some sr → func = 1) ∧ a1.1.mode = a.1.mode := by
+    {raw : List Nat} {lr : LastReq} {e : Bool} (hfn : f.data.getD 1 0 = func)
+    (hst : ∀ lr0, a.1.lastReq = some lr0 → ∀ sr, lr0.series = some sr → sr.fin = false → lr0.frag.getD 1 0 = 1)
+    (hi : idleResult a f ctrl func objects raw = some (a1, some (lr, e))) :
+    lr.frag = f.data ∧ (∀ sr, lr.series = some sr → sr.fin = false → func = 1) ∧ a1.1.mode = a.1.mode := by
   unfold Dnp3.Proofs.C12.idleResult at hi
   dsimp only at hi
   split at hi
   · simp only [Option.some.injEq, Prod.mk.injEq] at hi
-    obtain ⟨rfl, rfl⟩ := hi
+    obtain ⟨rfl, rfl, rfl⟩ := hi
     exact ⟨rfl, fun sr h => by simp at h, rfl⟩
   · rename_i hs hcl
     simp only [Option.some.injEq, Prod.mk.injEq] at hi
-    obtain ⟨rfl, rfl⟩ := hi
-    exact ⟨rfl, fun _ _ => classify_func.1 _ hcl, rfl⟩
+    obtain ⟨rfl, rfl, rfl⟩ := hi
+    exact ⟨rfl, fun _ _ _ => classify_func.1 _ hcl, rfl⟩
   · rename_i r0 hs hcl
     simp only [Option.some.injEq, Prod.mk.injEq] at hi
-    obtain ⟨rfl, rfl⟩ := hi
-    exact ⟨rfl, fun _ _ => classify_func.2.1 _ _ hcl, rfl⟩
+    obtain ⟨rfl, rfl, rfl⟩ := hi
+    exact ⟨rfl, fun _ _ _ => classify_func.2.1 _ _ hcl, rfl⟩
   · split at hi
     · simp at hi
     · rename_i a2 r1 hn
       simp only [Option.some.injEq, Prod.mk.injEq] at hi
-      obtain ⟨rfl, rfl⟩ := hi
+      obtain ⟨rfl, rfl, rfl⟩ := hi
       exact ⟨rfl, fun sr h => by simp at h, handleNonRead_mode hn⟩
-  · simp only [Option.some.injEq, Prod.mk.injEq] at hi
-    obtain ⟨rfl, rfl⟩ := hi
-    refine ⟨rfl, fun sr h => by simp at h, ?_⟩
-    dsimp only
-    split <;> rfl
+  · rename_i last hcl
+    simp only [Option.some.injEq, Prod.mk.injEq] at hi
+    obtain ⟨rfl, rfl, rfl⟩ := hi
+    obtain ⟨lr0, hl0, _, hf0, _⟩ := classify_repeat (Or.inr hcl)
+    refine ⟨rfl, fun sr hsr hf => ?_, ?_⟩
+    · have hl : ∀ s' : OState, s'.lastReq = a.1.lastReq → s'.lastReq.bind (·.series) = some sr → func = 1 := by
+        intro s' hs' hb
+        rw [hs', hl0] at hb
+        have := hst lr0 hl0 sr hb hf
+        rw [hf0, hfn] at this
+        exact this
+      refine hl _ ?_ hsr
+      splits <;> rfl
+    · dsimp only
+      splits <;> rfl
   · split at hi
     · simp at hi
     · simp at hi
@@ -1417,35 +1456,44 @@ theorem idleResult_lr {a a1 : Acc} {f : Frag} {ctrl : AppCtrl} {func : Nat} {obj
   · simp at hi
 
 /-- a series that `handle_one_request_from_idle` leaves open (`fin` clear) is that of a READ, and that
-    READ is what `lastReq` holds -/
+    READ is what `lastReq` holds (`hst`: the invariant of the stored request, for the echo of a repeated request) -/
 theorem handleRequestFromIdle_open {a a' : Acc} {f : Frag} {ctrl : AppCtrl} {func : Nat}
-    {objects : Except Nat (List ObjHdr)} {raw : List Nat} (hfn : f.data.getD 1 0 = func) {sr : Series}
+    {objects : Except Nat (List ObjHdr)} {raw : List Nat} (hfn : f.data.getD 1 0 = func)
+    (hst : ∀ lr0, a.1.lastReq = some lr0 → ∀ sr, lr0.series = some sr → sr.fin = false → lr0.frag.getD 1 0 = 1)
+    {sr : Series}
     (hh : handleRequestFromIdle a f ctrl func objects raw = some (a', some sr)) (hfin : sr.fin = false) :
     ∀ lr, a'.1.lastReq = some lr → lr.frag.getD 1 0 = 1 := by
   rw [handleRequestFromIdle_eq] at hh
   split at hh
   · simp at hh
   · simp at hh
-  · rename_i a1 lr hi
-    obtain ⟨hfrag, hser, _⟩ := idleResult_lr hi
-    have hread : ∀ s0, lr.series = some s0 → lr.frag.getD 1 0 = 1 := fun s0 h0 => by
-      rw [hfrag, hfn]; exact hser s0 h0
+  · rename_i a1 lr e hi
+    obtain ⟨hfrag, hser, _⟩ := idleResult_lr hfn hst hi
+    have hread : ∀ s0, lr.series = some s0 → s0.fin = false → lr.frag.getD 1 0 = 1 := fun s0 h0 hf0 => by
+      rw [hfrag, hfn]; exact hser s0 h0 hf0
     split at hh
     · simp only [Option.some.injEq, Prod.mk.injEq] at hh
       obtain ⟨rfl, hs⟩ := hh
       intro l hl
       simp only [Option.some.injEq] at hl; subst hl
-      exact hread sr hs
+      exact hread sr hs hfin
     · split at hh
-      · simp at hh
-      · rename_i a2 r2 hw
+      · -- echo of the stored response: the record, with the series kept in it, is stored again
         simp only [Option.some.injEq, Prod.mk.injEq] at hh
         obtain ⟨rfl, hs⟩ := hh
         intro l hl
         simp only [Option.some.injEq] at hl; subst hl
-        split at hs
-        · simp only [Option.some.injEq] at hs; subst hs; simp at hfin
-        · exact hread sr hs
+        exact hread sr hs hfin
+      · split at hh
+        · simp at hh
+        · rename_i a2 r2 hw
+          simp only [Option.some.injEq, Prod.mk.injEq] at hh
+          obtain ⟨rfl, hs⟩ := hh
+          intro l hl
+          simp only [Option.some.injEq] at hl; subst hl
+          split at hs
+          · simp only [Option.some.injEq] at hs; subst hs; simp at hfin
+          · exact hread sr hs hfin
 
 /-- `hm`: the request is handled from the idle state — no solicited series is open (`runPass` is only
     entered with `mode = .idle _`) -/
@@ -1462,32 +1510,45 @@ theorem Good.handleRequestFromIdle {cfg : OCfg} (hdb : DbContract) {a a' : Acc} 
     simp only [Option.some.injEq, Prod.mk.injEq] at hh
     obtain ⟨rfl, rfl⟩ := hh
     exact (h.idleResult hdb hseq hfn hi).1
-  · rename_i a1 lr hi
+  · rename_i a1 lr e hi
     obtain ⟨hg, hp⟩ := h.idleResult hdb hseq hfn hi
-    have hps := hp lr rfl
-    have hm1 : NoOpen a1.1.mode := (idleResult_lr hi).2.2 ▸ hm
+    have hps := hp lr e rfl
+    have hlr := idleResult_lr hfn (fun lr0 hl0 => (h.1.2.2.2.2.2.2.1 lr0 hl0).2.2) hi
+    have hm1 : NoOpen a1.1.mode := hlr.2.2 ▸ hm
     split at hh
     · simp only [Option.some.injEq, Prod.mk.injEq] at hh
       obtain ⟨rfl, rfl⟩ := hh
       exact hg.setLastReq _ (fun l hl => by
-        simp only [Option.some.injEq] at hl; subst hl; exact hps.stored hseq hfn)
+        simp only [Option.some.injEq] at hl; subst hl; exact hps.stored hseq hfn hlr.2.1)
         (fun _ _ _ hmo hf => hm1.elim hmo hf)
     · rename_i r hr
       split at hh
-      · simp at hh
-      · rename_i a2 r2 hw
+      · -- echo: the stored response goes out verbatim, the record is stored again
         simp only [Option.some.injEq, Prod.mk.injEq] at hh
         obtain ⟨rfl, rfl⟩ := hh
-        obtain ⟨b1, b2, b3, b4⟩ := hps.2.2 r hr
-        obtain ⟨g2, s2, e1, e2, e3, _⟩ := hg.writeSolicited b1 hw
-        have hm2 : NoOpen a2.1.mode := (writeSolicited_mode hw).1 ▸ hm1
-        refine g2.setLastReq _ (fun l hl => ?_) (fun _ _ _ hmo hf => hm2.elim hmo hf)
-        simp only [Option.some.injEq] at hl; subst hl
-        refine ⟨hps.1 ▸ hseq, fun r' hr' => ?_⟩
-        simp only [Option.some.injEq] at hr'; subst hr'
-        refine ⟨s2, fun hne => ⟨(e1.trans b2).trans hps.1.symm, e2.trans b3, e3.trans (b4 ?_)⟩⟩
-        rw [show ({ lr with response := some r2, series := _ } : LastReq).frag = lr.frag from rfl, hps.2.1, hfn] at hne
-        exact hne
+        exact (hg.repeatSolicited f.src (hps.2.2 r hr).1).setLastReq _ (fun l hl => by
+          simp only [Option.some.injEq] at hl; subst hl; exact hps.stored hseq hfn hlr.2.1)
+          (fun _ _ _ hmo hf => hm1.elim hmo hf)
+      · split at hh
+        · simp at hh
+        · rename_i a2 r2 hw
+          simp only [Option.some.injEq, Prod.mk.injEq] at hh
+          obtain ⟨rfl, rfl⟩ := hh
+          obtain ⟨b1, b2, b3, b4⟩ := hps.2.2 r hr
+          obtain ⟨g2, s2, e1, e2, e3, _⟩ := hg.writeSolicited b1 hw
+          have hm2 : NoOpen a2.1.mode := (writeSolicited_mode hw).1 ▸ hm1
+          refine g2.setLastReq _ (fun l hl => ?_) (fun _ _ _ hmo hf => hm2.elim hmo hf)
+          simp only [Option.some.injEq] at hl; subst hl
+          refine ⟨hps.1 ▸ hseq, fun r' hr' => ?_, fun sr hs hf => ?_⟩
+          · simp only [Option.some.injEq] at hr'; subst hr'
+            refine ⟨s2, fun hne => ⟨(e1.trans b2).trans hps.1.symm, e2.trans b3, e3.trans (b4 ?_)⟩⟩
+            rw [show ({ lr with response := some r2, series := _ } : LastReq).frag = lr.frag from rfl, hps.2.1, hfn] at hne
+            exact hne
+          · dsimp only at hs
+            split at hs
+            · simp only [Option.some.injEq] at hs; subst hs; simp at hf
+            · show lr.frag.getD 1 0 = 1
+              rw [hps.2.1, hfn]; exact hlr.2.1 sr hs hf
 
 /-- a step result whose accumulator is good -/
 def GoodRes (cfg : OCfg) (r : StepRes) : Prop := Good cfg (finishStep r)
@@ -1585,7 +1646,7 @@ theorem Good.handleDeferredRead {cfg : OCfg} (hdb : DbContract) {a : Acc} (h : G
         refine g2.setLastReq _ (fun l hl => ?_) (fun _ _ _ _ _ l hl => by
           simp only [Option.some.injEq] at hl; subst hl; exact hdfrag)
         simp only [Option.some.injEq] at hl; subst hl
-        refine ⟨hdseq, fun r' hr' => ?_⟩
+        refine ⟨hdseq, fun r' hr' => ?_, fun _ _ _ => hdfrag⟩
         simp only [Option.some.injEq] at hr'; subst hr'
         exact ⟨s2, fun hne => absurd hdfrag hne⟩
       split at hd
@@ -1656,7 +1717,7 @@ theorem GoodRes.runPass {cfg : OCfg} (hdb : DbContract) : ∀ (fuel : Nat) (a : 
     dsimp only at hp he hr ⊢
     split
     · exact GoodRes.afterRequest hdb ih (a := ({ s1 with pending := none }, a.2)) hp
-    · rename_i src seq
+    · rename_i src bc seq
       have hp' : Good cfg (onLinkActivity { s1 with pending := none }, a.2) := hp
       split
       · exact GoodRes.die hp'
@@ -1670,7 +1731,7 @@ theorem GoodRes.runPass {cfg : OCfg} (hdb : DbContract) : ∀ (fuel : Nat) (a : 
       · exact GoodRes.die hp'
       · rename_i a1 series hh
         exact (hp'.handleRequestFromIdle hdb hpm hreq hh).enterSolWait _ _
-          (handleRequestFromIdle_open (parseRequest_func hreq) hh)
+          (handleRequestFromIdle_open (parseRequest_func hreq) (fun lr0 hl0 => (hp'.1.2.2.2.2.2.2.1 lr0 hl0).2.2) hh)
       · rename_i a1 hh
         exact GoodRes.afterRequest hdb ih (hp'.handleRequestFromIdle hdb hpm hreq hh)
 
@@ -1716,7 +1777,7 @@ theorem Good.storeResponse {cfg : OCfg} {a : Acc} (h : Good cfg a) {r : Resp} (h
     exact hread lr0 h0
   refine ⟨h.setLastReq _ (fun l hl => ?_) (fun _ _ _ _ _ l hl => hread' l hl), hread'⟩
   obtain ⟨lr0, h0, rfl⟩ := key l hl
-  refine ⟨(h.1.2.2.2.2.2.2.1 lr0 h0).1, fun r' hr' => ?_⟩
+  refine ⟨(h.1.2.2.2.2.2.2.1 lr0 h0).1, fun r' hr' => ?_, fun _ _ _ => hread lr0 h0⟩
   simp only [Option.some.injEq] at hr'; subst hr'
   exact ⟨hr, fun hne => absurd (hread lr0 h0) hne⟩
 
@@ -1758,7 +1819,7 @@ theorem GoodRes.solWaitOnFragment {cfg : OCfg} (hdb : DbContract) {a : Acc} (h :
         fun a' g hm' => g.reSolWait hm' _ _
       split
       · rename_i r hr
-        exact key _ (hp2.repeatSolicited _ (hst.2 r hr).1) hm2
+        exact key _ (hp2.repeatSolicited _ (hst.2.1 r hr).1) hm2
       · exact key _ hp2 hm2
     · exact GoodRes.blocked (Good.emitCb (a := ({ s2 with pending := none }, a.2)) hp' _)
     · -- solicited confirm
@@ -1824,7 +1885,7 @@ theorem GoodRes.unsolWaitOnFragment {cfg : OCfg} (hdb : DbContract) {a : Acc} (h
   have hp1 : Good cfg ({ s1 with pending := none }, a.2) := hp
   split
   · exact hp1
-  · rename_i src seq
+  · rename_i src bc seq
     split
     · exact GoodRes.die hp1
     · rename_i a1 hw
@@ -1840,7 +1901,8 @@ theorem GoodRes.unsolWaitOnFragment {cfg : OCfg} (hdb : DbContract) {a : Acc} (h
     split
     · -- unsolicited confirm
       split
-      · exact GoodRes.finishUnsol hdb (Good.emitCb (a := ({ s2 with lastBroadcast := none }, a.2)) hp2 _) _ _
+      · exact GoodRes.finishUnsol hdb (Good.emitCb
+          (a := ({ s2 with lastBroadcast := if s2.unsolReported then none else s2.lastBroadcast }, a.2)) hp2 _) _ _
       · exact hp2
     · -- solicited confirm
       refine GoodRes.blocked ?_
@@ -1851,7 +1913,9 @@ theorem GoodRes.unsolWaitOnFragment {cfg : OCfg} (hdb : DbContract) {a : Acc} (h
       split
       · exact GoodRes.die hp2
       · rename_i a1 hb
-        exact GoodRes.blocked (Good.processBroadcast hp2.clearDeferred hseq hb)
+        have g1 : Good cfg a1 := Good.processBroadcast hp2.clearDeferred hseq hb
+        have g2 : Good cfg ({ a1.1 with unsolReported := false }, a1.2) := g1
+        exact GoodRes.blocked g2
     · -- malformed
       split
       · exact GoodRes.die hp2
@@ -1888,7 +1952,7 @@ theorem GoodRes.unsolWaitOnFragment {cfg : OCfg} (hdb : DbContract) {a : Acc} (h
           have g4 : Good cfg ({ a2.1 with lastReq := some ⟨ctrl.seq, f.data, r2, none⟩ }, a2.2) := by
             refine key.1.1.setLastReq _ (fun l hl => ?_) (fun _ _ _ hmo hf => key.1.2.elim hmo hf)
             simp only [Option.some.injEq] at hl; subst hl
-            refine ⟨hseq, fun r hr => ?_⟩
+            refine ⟨hseq, fun r hr => ?_, fun sr hs => by simp at hs⟩
             obtain ⟨c1, c2, c3, c4⟩ := key.2 r hr
             exact ⟨c1, fun _ => ⟨c2, c3, c4⟩⟩
           split
@@ -1908,7 +1972,7 @@ theorem GoodRes.unsolWaitOnFragment {cfg : OCfg} (hdb : DbContract) {a : Acc} (h
       refine GoodRes.blocked (Good.clearDeferred ?_)
       split
       · rename_i r hr
-        exact hp2.repeatSolicited _ (hst.2 r hr).1
+        exact hp2.repeatSolicited _ (hst.2.1 r hr).1
       · exact hp2
 
 theorem GoodRes.unsolWaitTimeout {cfg : OCfg} (hdb : DbContract) {a : Acc} (h : Good cfg a) {resp : Resp}
@@ -2161,25 +2225,52 @@ theorem writeUnsolicited_out {a a' : Acc} {r r' : Resp} (hw : writeUnsolicited a
 
 /-! ## C12 target 5: rejections are flagged -/
 
-/-- (a) a fragment whose application header is rejected (unknown function code, a response
+/-- (a) a unicast fragment (`broadcast = false`, the third argument: `f.broadcast.isSome` of the fragment,
+    `popRequest_headerError`) whose application header is rejected (unknown function code, a response
     function code, FIR/FIN not both set, UNS on a non-confirm) is answered — when the IIN can be
     computed at all — with exactly one solicited response carrying the request's sequence number
     and IIN2.0 NO_FUNC_CODE_SUPPORT -/
 theorem rejection_flagged_header {a : Acc} {dst seq : Nat} {x : OState × Nat × Nat}
     (hg : getResponseIin a.1 = some x) :
-    ∃ a' r, writeErrorResponse a dst (some seq) = some a' ∧ SentOne a.2 a'.2 dst r ∧
+    ∃ a' r, writeErrorResponse a dst false (some seq) = some a' ∧ SentOne a.2 a'.2 dst r ∧
       r.func = 0x81 ∧ r.ctrl.seq = seq ∧ r.ctrl.fir = true ∧ r.ctrl.fin = true ∧ r.ctrl.uns = false ∧
       HasBits r.iin2 iin2NoFunc := by
   obtain ⟨⟨a1, r1⟩, hw⟩ := writeSolicited_isSome hg dst (emptySolicited seq iin2NoFunc)
   obtain ⟨s', i1, i2, _, hs, h1, _, h3, _, h5, h6, h7, h8, _⟩ := writeSolicited_out hw
   refine ⟨a1, r1, ?_, hs, h1, h5, h6, h7, h8, ?_⟩
-  · unfold Dnp3.writeErrorResponse; simp only [hw]
+  · unfold Dnp3.writeErrorResponse; simp only [hw, Bool.false_eq_true, if_false]
   · rw [h3]; exact (HasBits.self _).or_left _
 
-/-- the header-error path is taken exactly for `parseRequest = .headerError` -/
+/-- (a, complement; D6 repaired) a BROADCAST fragment whose application header is rejected is never answered:
+    nothing is transmitted, nothing changes, and the session does not panic -/
+theorem rejection_header_broadcast_silent (a : Acc) (dst : Nat) (seq : Option Nat) :
+    writeErrorResponse a dst true seq = some a := by
+  unfold Dnp3.writeErrorResponse; simp only [if_true]
+
+/-- the header-error path is taken exactly for `parseRequest = .headerError` of a fragment from an accepted
+    master (`hm`; D6 repaired: the fragments of any other master are dropped whatever they contain,
+    `popRequest_foreign`); the `Bool` handed on says whether the fragment was a broadcast -/
 theorem popRequest_headerError {s : OState} {f : Frag} {seq : Nat} (hp : s.pending = some f)
-    (he : parseRequest f.data = .headerError seq) : popRequest s = (s, .error f.src (some seq)) := by
-  unfold popRequest; simp only [hp, he]
+    (hm : s.cfg.anymaster = true ∨ f.src = s.cfg.master)
+    (he : parseRequest f.data = .headerError seq) :
+    popRequest s = (s, .error f.src f.broadcast.isSome (some seq)) := by
+  unfold popRequest
+  simp only [hp, he]
+  have : ¬ ((!s.cfg.anymaster) = true ∧ f.src ≠ s.cfg.master) := by
+    rintro ⟨h1, h2⟩
+    rcases hm with h | h
+    · simp [h] at h1
+    · exact h2 h
+  rw [if_neg this]
+
+/-- (complement; D6 repaired) a pending fragment of a foreign master — well-formed request or header-level
+    error alike — is dropped: nothing is handed to the session, so nothing is answered -/
+theorem popRequest_foreign {s : OState} {f : Frag} (hp : s.pending = some f)
+    (ha : s.cfg.anymaster = false) (hm : f.src ≠ s.cfg.master) :
+    popRequest s = ({ s with pending := none }, .nothing) := by
+  unfold popRequest
+  simp only [hp]
+  rw [if_pos ⟨by simp [ha], hm⟩]
 
 /-- errors of an `Except Nat` computation are one of the three IIN2 rejection bits -/
 def OkErr {α : Type} (x : Except Nat α) : Prop :=
@@ -2338,55 +2429,107 @@ theorem parseObjects_error (isRead : Bool) (fuel : Nat) (d : List Nat) (e : Nat)
 /-! ### from the handler's response record to the wire -/
 
 /-- if the idle path produced a response record `r`, exactly one fragment is transmitted, to the
-    requester, with `r`'s sequence number / FIR / FIN / UNS / function and with every IIN2 bit of `r` -/
+    requester, with `r`'s sequence number / FIR / FIN / UNS / function and with every IIN2 bit of `r`;
+    the echo of a stored response (`e = true`, D14 repaired) is `r` itself, verbatim -/
 theorem idle_sends {a a' a1 : Acc} {f : Frag} {ctrl : AppCtrl} {func : Nat} {objects : Except Nat (List ObjHdr)}
-    {raw : List Nat} {series : Option Series} {lr : LastReq} {r : Resp}
-    (hi : idleResult a f ctrl func objects raw = some (a1, some lr)) (hr : lr.response = some r)
+    {raw : List Nat} {series : Option Series} {lr : LastReq} {e : Bool} {r : Resp}
+    (hi : idleResult a f ctrl func objects raw = some (a1, some (lr, e))) (hr : lr.response = some r)
     (hh : handleRequestFromIdle a f ctrl func objects raw = some (a', series)) :
     ∃ r', SentOne a1.2 a'.2 f.src r' ∧ r'.func = r.func ∧ r'.ctrl.seq = r.ctrl.seq ∧ r'.ctrl.fir = r.ctrl.fir ∧
       r'.ctrl.fin = r.ctrl.fin ∧ r'.ctrl.uns = r.ctrl.uns ∧ (∀ m, HasBits r.iin2 m → HasBits r'.iin2 m) ∧
-      a'.1.lastReq = some { lr with response := some r', series := series } := by
+      a'.1.lastReq = some { lr with response := some r', series := series } ∧
+      (e = true → r' = r ∧ series = lr.series) := by
   rw [handleRequestFromIdle_eq, hi] at hh
   dsimp only at hh
   rw [hr] at hh
   dsimp only at hh
-  split at hh
-  · simp at hh
-  · rename_i a2 r2 hw
-    simp only [Option.some.injEq, Prod.mk.injEq] at hh
+  cases e with
+  | true =>
+    simp only [if_true, Option.some.injEq, Prod.mk.injEq] at hh
     obtain ⟨rfl, rfl⟩ := hh
-    obtain ⟨s', i1, i2, _, hs, h1, _, h3, _, h5, h6, h7, h8, _⟩ := writeSolicited_out hw
-    exact ⟨r2, hs, h1, h5, h6, h7, h8, fun m hm => by rw [h3]; exact hm.or_left _, rfl⟩
+    refine ⟨r, repeatSolicited_out a1 f.src r, rfl, rfl, rfl, rfl, rfl, fun m hm => hm, ?_, fun _ => ⟨rfl, rfl⟩⟩
+    show some lr = some _
+    cases lr
+    simp only at hr
+    subst hr
+    rfl
+  | false =>
+    simp only [Bool.false_eq_true, if_false] at hh
+    split at hh
+    · simp at hh
+    · rename_i a2 r2 hw
+      simp only [Option.some.injEq, Prod.mk.injEq] at hh
+      obtain ⟨rfl, rfl⟩ := hh
+      obtain ⟨s', i1, i2, _, hs, h1, _, h3, _, h5, h6, h7, h8, _⟩ := writeSolicited_out hw
+      exact ⟨r2, hs, h1, h5, h6, h7, h8, fun m hm => by rw [h3]; exact hm.or_left _, rfl, fun h => by cases h⟩
 
 /-- …and it is sent whenever the IIN can be computed (`unwritten_classes` does not underflow) -/
 theorem idle_sends_isSome {a a1 : Acc} {f : Frag} {ctrl : AppCtrl} {func : Nat} {objects : Except Nat (List ObjHdr)}
-    {raw : List Nat} {lr : LastReq} {r : Resp} {x : OState × Nat × Nat}
-    (hi : idleResult a f ctrl func objects raw = some (a1, some lr)) (hr : lr.response = some r)
+    {raw : List Nat} {lr : LastReq} {e : Bool} {r : Resp} {x : OState × Nat × Nat}
+    (hi : idleResult a f ctrl func objects raw = some (a1, some (lr, e))) (hr : lr.response = some r)
     (hg : getResponseIin a1.1 = some x) :
     ∃ y, handleRequestFromIdle a f ctrl func objects raw = some y := by
   rw [handleRequestFromIdle_eq, hi]
   dsimp only
   rw [hr]
   dsimp only
-  obtain ⟨⟨a2, r2⟩, hw⟩ := writeSolicited_isSome hg f.src r
-  rw [hw]
-  exact ⟨_, rfl⟩
+  cases e with
+  | true => simp only [if_true]; exact ⟨_, rfl⟩
+  | false =>
+    simp only [Bool.false_eq_true, if_false]
+    obtain ⟨⟨a2, r2⟩, hw⟩ := writeSolicited_isSome hg f.src r
+    rw [hw]
+    exact ⟨_, rfl⟩
 
 /-- if the idle path produced no response record, nothing is transmitted -/
 theorem idle_silent {a a' a1 : Acc} {f : Frag} {ctrl : AppCtrl} {func : Nat} {objects : Except Nat (List ObjHdr)}
-    {raw : List Nat} {series : Option Series} {olr : Option LastReq}
-    (hi : idleResult a f ctrl func objects raw = some (a1, olr)) (hr : ∀ lr, olr = some lr → lr.response = none)
+    {raw : List Nat} {series : Option Series} {olr : Option (LastReq × Bool)}
+    (hi : idleResult a f ctrl func objects raw = some (a1, olr))
+    (hr : ∀ lr e, olr = some (lr, e) → lr.response = none)
     (hh : handleRequestFromIdle a f ctrl func objects raw = some (a', series)) : a'.2 = a1.2 := by
   rw [handleRequestFromIdle_eq, hi] at hh
   cases olr with
   | none =>
     simp only [Option.some.injEq, Prod.mk.injEq] at hh
     rw [← hh.1]
-  | some lr =>
+  | some p =>
+    obtain ⟨lr, e⟩ := p
     dsimp only at hh
-    rw [hr lr rfl] at hh
+    rw [hr lr e rfl] at hh
     simp only [Option.some.injEq, Prod.mk.injEq] at hh
     rw [← hh.1]
+
+/-- D14 repaired: a repeat of the last non-READ request (same sequence number, same octets) handled from idle
+    is answered with the STORED response record verbatim (`repeat_solicited`: no IIN re-OR, no forced CON) —
+    exactly one transmission, to the requester; nothing is executed again; the record of the request stays as it
+    is, and the series recorded with it is the confirm wait that is entered again -/
+theorem idle_repeat_echo_verbatim {a a' : Acc} {f : Frag} {ctrl : AppCtrl} {func : Nat}
+    {objects : Except Nat (List ObjHdr)} {raw : List Nat} {series : Option Series} {r : Resp}
+    (hc : classify a.1 f ctrl func objects = .repeatNonRead (some r))
+    (hh : handleRequestFromIdle a f ctrl func objects raw = some (a', series)) :
+    SentOne a.2 a'.2 f.src r ∧ a'.1.lastReq = a.1.lastReq ∧ series = a.1.lastReq.bind (·.series) := by
+  obtain ⟨lr0, hl0, hs0, hf0, hr0⟩ := classify_repeat (Or.inr hc)
+  have key : ∀ S : OState, S.lastReq = a.1.lastReq →
+      (some (({ (repeatSolicited (S, a.2) f.src r).1 with
+                lastReq := some ⟨ctrl.seq, f.data, some r, S.lastReq.bind (·.series)⟩ },
+              (repeatSolicited (S, a.2) f.src r).2), S.lastReq.bind (·.series)) = some (a', series)) →
+      SentOne a.2 a'.2 f.src r ∧ a'.1.lastReq = a.1.lastReq ∧ series = a.1.lastReq.bind (·.series) := by
+    intro S hS h
+    simp only [Option.some.injEq, Prod.mk.injEq] at h
+    obtain ⟨rfl, rfl⟩ := h
+    refine ⟨repeatSolicited_out (S, a.2) f.src r, ?_, by rw [hS]⟩
+    show some _ = _
+    rw [hS, hl0]
+    cases lr0
+    simp only at hs0 hf0 hr0
+    subst hs0 hf0 hr0
+    rfl
+  rw [handleRequestFromIdle_eq] at hh
+  unfold idleResult at hh
+  rw [hc] at hh
+  simp only [if_true] at hh
+  refine key _ ?_ hh
+  splits <;> rfl
 
 /-! ### (b) malformed object headers -/
 
@@ -2402,7 +2545,7 @@ theorem rejection_flagged_objects {a a' : Acc} {f : Frag} {ctrl : AppCtrl} {func
     ∃ r, SentOne a.2 a'.2 f.src r ∧ r.func = 0x81 ∧ r.ctrl.seq = ctrl.seq ∧ r.ctrl.fir = true ∧
       r.ctrl.fin = true ∧ r.ctrl.uns = false ∧ HasBits r.iin2 e := by
   have hi : idleResult a f ctrl func (.error e) raw =
-      some (a, some ⟨ctrl.seq, f.data, some (emptySolicited ctrl.seq e), none⟩) := by
+      some (a, some (⟨ctrl.seq, f.data, some (emptySolicited ctrl.seq e), none⟩, false)) := by
     unfold idleResult; rw [classify_malformed hf hb]
   obtain ⟨r', hs, h1, h2, h3, h4, h5, h6, _⟩ := idle_sends hi rfl hh
   exact ⟨r', hs, h1, h2, h3, h4, h5, h6 e (HasBits.self e)⟩
@@ -2412,7 +2555,7 @@ theorem rejection_flagged_objects_isSome {a : Acc} {f : Frag} {ctrl : AppCtrl} {
     (hg : getResponseIin a.1 = some x) :
     ∃ y, handleRequestFromIdle a f ctrl func (.error e) raw = some y := by
   have hi : idleResult a f ctrl func (.error e) raw =
-      some (a, some ⟨ctrl.seq, f.data, some (emptySolicited ctrl.seq e), none⟩) := by
+      some (a, some (⟨ctrl.seq, f.data, some (emptySolicited ctrl.seq e), none⟩, false)) := by
     unfold idleResult; rw [classify_malformed hf hb]
   exact idle_sends_isSome hi rfl hg
 
@@ -2425,7 +2568,7 @@ theorem idle_newNonRead_sends {a a' a1 : Acc} {f : Frag} {ctrl : AppCtrl} {func 
     (hh : handleRequestFromIdle a f ctrl func objects raw = some (a', series)) :
     ∃ r', SentOne a1.2 a'.2 f.src r' ∧ r'.func = r.func ∧ r'.ctrl.seq = r.ctrl.seq ∧ r'.ctrl.fir = r.ctrl.fir ∧
       r'.ctrl.fin = r.ctrl.fin ∧ r'.ctrl.uns = r.ctrl.uns ∧ (∀ m, HasBits r.iin2 m → HasBits r'.iin2 m) := by
-  have hi : idleResult a f ctrl func objects raw = some (a1, some ⟨ctrl.seq, f.data, some r, none⟩) := by
+  have hi : idleResult a f ctrl func objects raw = some (a1, some (⟨ctrl.seq, f.data, some r, none⟩, false)) := by
     unfold idleResult; rw [hc]; dsimp only; rw [hn]
   obtain ⟨r', h0, h1, h2, h3, h4, h5, h6, _⟩ := idle_sends hi rfl hh
   exact ⟨r', h0, h1, h2, h3, h4, h5, h6⟩
@@ -2436,9 +2579,10 @@ theorem idle_newNonRead_silent {a a' a1 : Acc} {f : Frag} {ctrl : AppCtrl} {func
     (hn : handleNonRead a func ctrl.seq f.id hs raw = some (a1, none))
     (hh : handleRequestFromIdle a f ctrl func objects raw = some (a', series)) :
     a'.2 = a1.2 ∧ series = none := by
-  have hi : idleResult a f ctrl func objects raw = some (a1, some ⟨ctrl.seq, f.data, none, none⟩) := by
+  have hi : idleResult a f ctrl func objects raw = some (a1, some (⟨ctrl.seq, f.data, none, none⟩, false)) := by
     unfold idleResult; rw [hc]; dsimp only; rw [hn]
-  refine ⟨idle_silent hi (fun lr hl => by simp only [Option.some.injEq] at hl; subst hl; rfl) hh, ?_⟩
+  refine ⟨idle_silent hi (fun lr e hl => by
+    simp only [Option.some.injEq, Prod.mk.injEq] at hl; obtain ⟨rfl, _⟩ := hl; rfl) hh, ?_⟩
   rw [handleRequestFromIdle_eq, hi] at hh
   simp only [Option.some.injEq, Prod.mk.injEq] at hh
   exact hh.2.symm
@@ -2593,9 +2737,9 @@ theorem rejection_flagged_read {a a' : Acc} {f : Frag} {ctrl : AppCtrl} {func : 
       ∀ i ∈ selectIins a.1.db hs, ∀ m, HasBits i m → HasBits r.iin2 m := by
   have hi : idleResult a f ctrl func objects raw =
       some (((formatReadResponse { a.1 with db := (dbSelectAll a.1.db hs).1 } true ctrl.seq (dbSelectAll a.1.db hs).2).1, a.2),
-        some ⟨ctrl.seq, f.data,
+        some (⟨ctrl.seq, f.data,
           some (formatReadResponse { a.1 with db := (dbSelectAll a.1.db hs).1 } true ctrl.seq (dbSelectAll a.1.db hs).2).2.1,
-          (formatReadResponse { a.1 with db := (dbSelectAll a.1.db hs).1 } true ctrl.seq (dbSelectAll a.1.db hs).2).2.2⟩) := by
+          (formatReadResponse { a.1 with db := (dbSelectAll a.1.db hs).1 } true ctrl.seq (dbSelectAll a.1.db hs).2).2.2⟩, false)) := by
     unfold idleResult
     rcases hc with hc | ⟨r0, hc⟩ <;> rw [hc]
   obtain ⟨r', h0, h1, h2, h3, _, h5, h6, _⟩ := idle_sends hi rfl hh
@@ -3009,7 +3153,7 @@ theorem CbOnly.processBroadcast {base : List OOut} {a a' : Acc} (h : CbOnly base
 
 /-- the execution part of the idle path never transmits -/
 theorem CbOnly.idleResult {base : List OOut} {a a' : Acc} (h : CbOnly base a) {f : Frag} {ctrl : AppCtrl}
-    {func : Nat} {objects : Except Nat (List ObjHdr)} {raw : List Nat} {olr : Option LastReq}
+    {func : Nat} {objects : Except Nat (List ObjHdr)} {raw : List Nat} {olr : Option (LastReq × Bool)}
     (hi : idleResult a f ctrl func objects raw = some (a', olr)) : CbOnly base a' := by
   unfold C12.idleResult at hi
   dsimp only at hi
@@ -3023,7 +3167,7 @@ theorem CbOnly.idleResult {base : List OOut} {a a' : Acc} (h : CbOnly base a) {f
       simp only [Option.some.injEq, Prod.mk.injEq] at hi; obtain ⟨rfl, _⟩ := hi
       exact h.handleNonRead hn
   · simp only [Option.some.injEq, Prod.mk.injEq] at hi; obtain ⟨rfl, _⟩ := hi
-    split <;> exact h
+    splits <;> exact h
   · split at hi
     · simp at hi
     · rename_i a1 hp
@@ -3073,19 +3217,21 @@ theorem solicited_correlated_idle {cfg : OCfg} (hdb : DbContract) {a a' : Acc} (
     have cbCorr : ∀ o ∈ l1, Correlated f.src ctrl func o := fun o ho => by
       obtain ⟨c, rfl⟩ := c1 o ho; trivial
     have hpre := (h.idleResult hdb hseq hfn hi).2
-    by_cases hsil : ∀ lr, olr = some lr → lr.response = none
+    by_cases hsil : ∀ lr e, olr = some (lr, e) → lr.response = none
     · have := idle_silent hi hsil hh
       exact ⟨l1, this ▸ e1, cbCorr, by rw [txFrags_cbs l1 c1]; simp⟩
-    · have : ∃ lr r, olr = some lr ∧ lr.response = some r := by
+    · have : ∃ lr e r, olr = some (lr, e) ∧ lr.response = some r := by
         cases olr with
-        | none => exact absurd (fun lr hl => by simp at hl) hsil
-        | some lr =>
+        | none => exact absurd (fun lr e hl => by simp at hl) hsil
+        | some p =>
+          obtain ⟨lr, e⟩ := p
           cases hr : lr.response with
-          | none => exact absurd (fun lr' hl => by simp only [Option.some.injEq] at hl; subst hl; exact hr) hsil
-          | some r => exact ⟨lr, r, rfl, hr⟩
-      obtain ⟨lr, r, rfl, hr⟩ := this
+          | none => exact absurd (fun lr' e' hl => by
+              simp only [Option.some.injEq, Prod.mk.injEq] at hl; obtain ⟨rfl, _⟩ := hl; exact hr) hsil
+          | some r => exact ⟨lr, e, r, rfl, hr⟩
+      obtain ⟨lr, e, r, rfl, hr⟩ := this
       obtain ⟨r', ⟨rest, hs⟩, h1, h2, h3, h4, h5, _, _⟩ := idle_sends hi hr hh
-      obtain ⟨p1, p2, p3, p4⟩ := (hpre lr rfl).2.2 r hr
+      obtain ⟨p1, p2, p3, p4⟩ := (hpre lr e rfl).2.2 r hr
       refine ⟨l1 ++ [.tx f.src (respHeader r' ++ rest)], by rw [hs, e1, List.append_assoc], fun o ho => ?_, ?_⟩
       · simp only [List.mem_append, List.mem_singleton] at ho
         rcases ho with ho | rfl
@@ -3554,6 +3700,34 @@ example : txFrags (Outstation.step {} (Outstation.start {} 0).1 (.rx 1 1024 [0xC
 
 -- `rejection_flagged_header` hypothesis
 example : (getResponseIin (OState.init {} 0)).isSome = true := by decide +kernel
+
+-- `popRequest_headerError` hypotheses (D6 repaired): function code 0x70 is unknown — a header error; from the
+-- configured master (1), unicast, it is answered with IIN2.0 …
+example : parseRequest [0xC1, 0x70] = .headerError 1 := by rfl
+example : (OState.init {} 0).cfg.anymaster = true ∨ (⟨0, 1, none, [0xC1, 0x70]⟩ : Frag).src = (OState.init {} 0).cfg.master :=
+  Or.inr rfl
+example : txFrags (Outstation.step {} (Outstation.start {} 0).1 (.rx 1 1024 [0xC1, 0x70])).2 =
+    [(1, [0xC1, 0x81, 0x80, 0x01])] := by decide +kernel
+-- … `popRequest_foreign` hypotheses: from another master (2) it is dropped; `rejection_header_broadcast_silent`: sent
+-- to the broadcast address 0xFFFF it is not answered either
+example : (OState.init {} 0).cfg.anymaster = false ∧ (⟨0, 2, none, [0xC1, 0x70]⟩ : Frag).src ≠ (OState.init {} 0).cfg.master := by
+  decide
+example : txFrags (Outstation.step {} (Outstation.start {} 0).1 (.rx 2 1024 [0xC1, 0x70])).2 = [] := by decide +kernel
+example : txFrags (Outstation.step {} (Outstation.start {} 0).1 (.rx 1 0xFFFF [0xC1, 0x70])).2 = [] := by decide +kernel
+
+-- `idle_repeat_echo_verbatim` hypothesis (D14 repaired).  `d14State`: ASSIGN_CLASS (22, not implemented) seq 1 was
+-- answered with IIN1 = 0x80, IIN2 = 0x01; then a class-1 event was recorded (IIN1.1 would now be set)
+def d14State : OState :=
+  (Outstation.run {} (Outstation.start {} 10).1
+    [.rx 1 1024 [0xC1, 22], .add .binary 0 1, .txn [TxnItem.bin 0 true 1 5]]).1
+example : (match classify d14State ⟨d14State.frameId, 1, none, [0xC1, 22]⟩ ⟨true, true, false, false, 1⟩ 22 (.ok []) with
+    | .repeatNonRead (some r) => some (r.iin1, r.iin2)
+    | _ => none) = some (0x80, 0x01) := by decide +kernel
+-- the repeat is answered with the stored octets (IIN1 = 0x80), a new request (seq 2) with the current IIN1 = 0x82
+example : txFrags (Outstation.step {} d14State (.rx 1 1024 [0xC1, 22])).2 = [(1, [0xC1, 0x81, 0x80, 0x01])] := by
+  decide +kernel
+example : txFrags (Outstation.step {} d14State (.rx 1 1024 [0xC2, 22])).2 = [(1, [0xC2, 0x81, 0x82, 0x01])] := by
+  decide +kernel
 
 -- `parseObjects_error` instances: unknown object, truncated header, qualifier not valid for the variation
 example : parseObjects false 2 [99, 1] = .error iin2ObjUnknown := by rfl
